@@ -109,7 +109,7 @@ def worker_main(argv: list[str]) -> int:
         done += 1
     agg["runs"] = done
     with open(out, "w") as f:
-        json.dump(agg, f)
+        json.dump(agg, f, default=str)
     return 0
 
 
